@@ -558,4 +558,4 @@ pub(crate) fn load_from_jax_files<P: AsRef<Path>>(
 
 #[cfg(kani)]
 #[path = "/verif/kani/parser.rs"]
-mod verif_kani;
+pub(crate) mod verif_kani;
